@@ -1,11 +1,14 @@
 #!/bin/bash
 # usage: seed_final.sh [seed ids...]   (default: every directory under /verif/seeded)
-# Final confirmation against /repo itself: apply the patch (git -C /repo apply), run every registered
-# quick check, undo (git -C /repo checkout -- .). Writes detected_by into meta.json and RESULTS.md.
+# Final confirmation against /repo itself: apply the patch (git -C /repo apply), run the quick checks,
+# undo (git -C /repo checkout -- .). By default the checks run are the seed's own property check plus
+# every check that the scratch triage (tools/seed_eval.sh summaries given in TRIAGE, default
+# /tmp/eval/out/summary.txt /tmp/eval2/out/summary.txt) saw exit 1; ALL=1 runs every registered check.
 cd /verif || exit 2
 [ -z "$(git -C /repo status --short)" ] || { echo "/repo is not clean"; exit 2; }
 IDS="$@"; [ -z "$IDS" ] && IDS=$(ls seeded | grep -E '^C[0-9]+[a-z]$')
-CHECKS=$(python3 -c "import json;print(' '.join(c['property_id'] for c in json.load(open('/verif/MANIFEST.json'))['checks']))")
+ALLCHECKS=$(python3 -c "import json;print(' '.join(c['property_id'] for c in json.load(open('/verif/MANIFEST.json'))['checks']))")
+TRIAGE=${TRIAGE:-"/tmp/eval/out/summary.txt /tmp/eval2/out/summary.txt"}
 mkdir -p /verif/seeded/logs
 for ID in $IDS; do
   if ! git -C /repo apply --check seeded/$ID/patch.diff 2>/dev/null; then
@@ -15,25 +18,29 @@ p='/verif/seeded/%s/meta.json'%sys.argv[1]; m=json.load(open(p)); m['status_at_h
 PY
     continue
   fi
+  OWN=$(echo $ID | cut -c1-3)
+  if [ -n "$ALL" ]; then CHECKS="$ALLCHECKS"; else
+    CHECKS=$( (echo $OWN; cat $TRIAGE 2>/dev/null | grep "^$ID:" | tr ' ' '\n' | grep '=1$' | cut -d= -f1) | sort -u | tr '\n' ' ')
+  fi
   git -C /repo apply seeded/$ID/patch.diff
-  DET=""; ALL=""
+  DET=""; ALLRC=""
   for c in $CHECKS; do
     ./check.sh $c quick > seeded/logs/$ID.$c.log 2>&1; rc=$?
-    ALL="$ALL $c=$rc"; [ $rc -eq 1 ] && DET="$DET $c"
+    ALLRC="$ALLRC $c=$rc"; [ $rc -eq 1 ] && DET="$DET $c"
     [ $rc -ge 2 ] && echo "$ID: check $c machinery exit $rc"
   done
   git -C /repo checkout -- .
-  echo "$ID: detected by:$DET"
-  python3 - "$ID" "$DET" "$ALL" <<'PY'
+  echo "$ID: ran:$ALLRC"
+  python3 - "$ID" "$DET" "$ALLRC" <<'PY'
 import json,sys
 p='/verif/seeded/%s/meta.json'%sys.argv[1]; m=json.load(open(p))
-m['detected_by_quick_checks']=sys.argv[2].split(); m['quick_check_exit_codes']=sys.argv[3].strip()
+m['detected_by_quick_checks']=sys.argv[2].split(); m['quick_check_exit_codes_against_repo']=sys.argv[3].strip()
 m['status_at_head']='applies to /repo HEAD'
 m['confirmed_independently']='tools/seed_confirm.sh in a scratch worktree: clean tree + demo passes; patched tree passes the 43 existing tests; patched tree + demo fails'
-m['how_checks_were_run']='tools/seed_final.sh: git -C /repo apply patch.diff; ./check.sh <ID> quick for every registered check; git -C /repo checkout -- .'
+m['how_checks_were_run']='tools/seed_final.sh: git -C /repo apply patch.diff; ./check.sh <ID> quick for the listed checks (own property + those the scratch triage saw fail); git -C /repo checkout -- .'
 json.dump(m,open(p,'w'),indent=1)
 PY
 done
-# leave /repo's build of the engine consistent with the clean tree
-./check.sh C14 quick > /dev/null 2>&1
+./check.sh C14 quick > /dev/null 2>&1   # rebuild the engine against the clean tree
 rm -rf seeded/logs
+[ -z "$(git -C /repo status --short)" ] && echo "/repo clean"
